@@ -2,7 +2,7 @@
 cd "$(dirname "$0")/.."
 for p in "$@"; do
   s=$(date +%s)
-  out=$(VERIF_SEED=5 VERIF_REPLAYS=/tmp/allthorough-replays python3 tools/check.py $p --tier thorough 2>&1); rc=$?
+  out=$(VERIF_SEED=5 VERIF_REPLAYS=/tmp/allthorough-replays VERIF_EVIDENCE=/tmp/allthorough-evidence python3 tools/check.py $p --tier thorough 2>&1); rc=$?
   echo "$p rc=$rc wall=$(( $(date +%s) - s ))s $(echo "$out" | tail -1)"
   echo "$out" | grep -m3 "VIOLATION\|INFRA" 
   echo "$out" | grep -A12 "INFRA" | head -20
